@@ -699,16 +699,17 @@ where
                     break Ok(());
                 }
                 Notification::Event(bytes) => {
-                    sync_event = true;
-
                     trace!("Updating the current value.");
                     current.clear();
 
                     if let Err(e) = interpretation.interpret_frame_data(bytes, &mut current) {
-                        if let BadFrameResponse::Abort(report) = failure_handler.failed_with(e) {
-                            break Err(report);
+                        match failure_handler.failed_with(e) {
+                            BadFrameResponse::Abort(report) => break Err(report),
+                            // An ignored frame is skipped entirely: it is not forwarded to the consumers.
+                            BadFrameResponse::Ignore => continue,
                         }
                     }
+                    sync_event = true;
                     if is_active {
                         send_current(&mut registered, &current).await;
                         if !I::SINGLE_FRAME_STATE {
